@@ -61,22 +61,54 @@ Qed.
 Lemma tmax_eq : tmax = 86400 * jan1_days 2370.
 Proof. reflexivity. Qed.
 
+Lemma jan1_days_upper_nat n : forall y, 1 <= y -> jan1_days (y + Z.of_nat n) <= jan1_days y + 366 * Z.of_nat n.
+Proof.
+  induction n as [|n IH]; intros y Hy.
+  - replace (y + Z.of_nat 0) with y by lia. lia.
+  - replace (y + Z.of_nat (S n)) with ((y + Z.of_nat n) + 1) by lia.
+    rewrite jan1_days_succ by lia. specialize (IH y Hy).
+    pose proof (days_in_year_pos (y + Z.of_nat n)). lia.
+Qed.
+
+Lemma jan1_days_upper y y' : 1 <= y -> y <= y' -> jan1_days y' <= jan1_days y + 366 * (y' - y).
+Proof.
+  intros Hy Hle. pose proof (jan1_days_upper_nat (Z.to_nat (y' - y)) y Hy) as H.
+  rewrite Z2Nat.id in H by lia. replace (y + (y' - y)) with y' in H by lia. exact H.
+Qed.
+
 (** the year of a timestamp brackets it *)
 Lemma year_of_spec t : valid_time t = true ->
   1970 <= year_of t < 2370 /\ jan1 (year_of t) <= t < jan1 (year_of t + 1).
 Proof.
   unfold valid_time. rewrite andb_true_iff, Z.leb_le, Z.ltb_lt. intros [H0 Hm].
   rewrite tmax_eq in Hm. unfold year_of, year_of_days, jan1.
-  assert (Hd : 0 <= t / 86400 < jan1_days 2370).
-  { split; [apply Z.div_pos; lia|]. apply Z.div_lt_upper_bound; lia. }
-  pose proof (year_loop_spec year_fuel 1970 (t / 86400) ltac:(lia) (proj1 Hd)) as H.
-  rewrite jan1_days_1970 in H. change (1970 + Z.of_nat year_fuel) with 2370 in H.
-  specialize (H ltac:(lia)). cbv zeta in H. destruct H as [Hy [Hlo Hhi]].
-  split; [exact Hy|]. rewrite Z.sub_0_r in Hlo, Hhi.
+  set (d := t / 86400).
+  assert (Hd : 0 <= d < jan1_days 2370).
+  { unfold d. split; [apply Z.div_pos; lia|]. apply Z.div_lt_upper_bound; lia. }
+  set (y0 := 1970 + d / 366). cbv zeta.
+  assert (Hk : 0 <= d / 366) by (apply Z.div_pos; lia).
+  assert (Hy0 : 1970 <= y0) by (unfold y0; lia).
+  assert (Hlo0 : jan1_days y0 <= d).
+  { pose proof (jan1_days_upper 1970 y0 ltac:(lia) Hy0) as Hu. rewrite jan1_days_1970 in Hu.
+    pose proof (Z.mul_div_le d 366 ltac:(lia)). unfold y0 in *. lia. }
+  assert (Hy0' : y0 < 2370).
+  { destruct (Z.lt_ge_cases y0 2370) as [|Hge]; [assumption|].
+    pose proof (jan1_days_mono 2370 y0 ltac:(lia) Hge). lia. }
+  pose proof (year_loop_spec year_fuel y0 (d - jan1_days y0) ltac:(lia) ltac:(lia)) as H.
+  assert (Hup : d - jan1_days y0 < jan1_days (y0 + Z.of_nat year_fuel) - jan1_days y0).
+  { change (Z.of_nat year_fuel) with 400.
+    pose proof (jan1_days_mono 2370 (y0 + 400) ltac:(lia) ltac:(lia)). lia. }
+  specialize (H Hup). cbv zeta in H. destruct H as [Hy [Hlo Hhi]].
+  set (y := year_loop year_fuel y0 (d - jan1_days y0)) in *.
+  assert (Hlo' : jan1_days y <= d) by lia.
+  assert (Hhi' : d < jan1_days (y + 1)) by lia.
+  assert (Hy2 : y < 2370).
+  { destruct (Z.lt_ge_cases y 2370) as [|Hge]; [assumption|].
+    pose proof (jan1_days_mono 2370 y ltac:(lia) Hge). lia. }
+  split; [lia|]. unfold d in *.
   split.
   - pose proof (Z.mul_div_le t 86400 ltac:(lia)). nia.
-  - assert (t / 86400 + 1 <= jan1_days (year_loop year_fuel 1970 (t / 86400) + 1)) by lia.
-    pose proof (Z.mod_pos_bound t 86400 ltac:(lia)).
+  - pose proof (Z.mod_pos_bound t 86400 ltac:(lia)).
     pose proof (Z.div_mod t 86400 ltac:(lia)). nia.
 Qed.
 
